@@ -1,5 +1,7 @@
 SPECIFICATION Spec
 CONSTANT Products <- Family
+CONSTANT StoreKinds = {"dir", "deny", "mapping"}
+CONSTANT TranslateImageKeyError = TRUE
 CONSTANT NoFaults = TRUE
 INVARIANT FailStopFiles
 INVARIANT MissingIsOSError
